@@ -53,6 +53,33 @@ type Eval struct {
 	LeafWidth func(v ssa.Value) int
 	// Resolve maps a value before evaluation (phi / parameter resolution of a path).
 	Resolve func(v ssa.Value) ssa.Value
+	// Inline says which callees Interp may evaluate through (helpers of the package, closures).
+	Inline func(callee *ssa.Function) bool
+	// Env binds values to vectors that are already known (Interp: everything computed so far on the path executed).
+	Env map[ssa.Value]Vec
+}
+
+// constVal: the vector as a number, if every bit is known.
+func (v Vec) constVal() (uint64, bool) {
+	var u uint64
+	for i, b := range v {
+		switch b.K {
+		case One:
+			u |= 1 << uint(i)
+		case Zero:
+		default:
+			return 0, false
+		}
+	}
+	return u, true
+}
+
+func conflictVec(why string) Vec {
+	var out Vec
+	for i := range out {
+		out[i] = Bit{K: Conflict, Why: why}
+	}
+	return out
 }
 
 func typeBits(t types.Type) (int, bool) {
@@ -155,6 +182,9 @@ func (e *Eval) Of(v ssa.Value) Vec {
 	if u, ok := constOf(v); ok {
 		return constVec(u)
 	}
+	if vec, ok := e.Env[v]; ok {
+		return vec
+	}
 	switch x := v.(type) {
 	case *ssa.Convert:
 		if _, ok := typeBits(x.X.Type()); ok || isIntLike(x.X.Type()) {
@@ -193,6 +223,13 @@ func (e *Eval) Of(v ssa.Value) Vec {
 			return truncate(out, x.Type())
 		case token.OR, token.XOR, token.ADD:
 			a, b := e.Of(x.X), e.Of(x.Y)
+			if x.Op == token.ADD {
+				if ca, ok := a.constVal(); ok {
+					if cb, ok := b.constVal(); ok {
+						return truncate(constVec(ca+cb), x.Type())
+					}
+				}
+			}
 			var out Vec
 			overlap := false
 			for i := range out {
@@ -226,10 +263,26 @@ func (e *Eval) Of(v ssa.Value) Vec {
 				}
 			}
 			return truncate(out, x.Type())
+		case token.SUB, token.MUL:
+			// folded when both operands are known numbers (a mask written 1<<w - 1)
+			a, aok := e.Of(x.X).constVal()
+			b, bok := e.Of(x.Y).constVal()
+			if aok && bok {
+				if x.Op == token.SUB {
+					return truncate(constVec(a-b), x.Type())
+				}
+				return truncate(constVec(a*b), x.Type())
+			}
+			if bok && b == 0 && x.Op == token.SUB {
+				return e.Of(x.X)
+			}
 		case token.SHL, token.SHR:
 			k, ok := constOf(x.Y)
 			if e.Resolve != nil {
 				k, ok = constOf(e.Resolve(x.Y))
+			}
+			if !ok {
+				k, ok = e.Of(x.Y).constVal()
 			}
 			if !ok {
 				break
